@@ -208,3 +208,29 @@ Definition chain_guard (s : st) (g : ghost) (o : op) : Prop :=
   end.
 Definition hist_guard (ops : list op) : Prop :=
   forall s g o, In (s, g, o) (gtrace ops) -> chain_guard s g o.
+
+(* the part of it that the extension itself needs: no clause about duplicate
+   mids (those only decide whether "the" index of a mid is well defined), no
+   rdesc_ok *)
+Definition chain_guard_light (s : st) (g : ghost) (o : op) : Prop :=
+  match o with
+  | CreateOffer | CreateAnswer => codecs_ok s
+  | SetLocal ty =>
+      match local_next (sig s) ty with
+      | None => True
+      | Some _ => match ty with TOffer => g_offer_fresh g = true | _ => g_answer_fresh g = true end
+      end
+  | SetRemote ty d =>
+      match remote_next (sig s) ty with
+      | None => True
+      | Some _ =>
+          all_usable d /\
+          match ty with
+          | TOffer => prefix_of (g_last g) (mids_of_r d)
+          | _ => g_last g = Some (mids_of_r d)
+          end
+      end
+  | _ => True
+  end.
+Definition hist_guard_light (ops : list op) : Prop :=
+  forall s g o, In (s, g, o) (gtrace ops) -> chain_guard_light s g o.
